@@ -24,6 +24,9 @@ CHECKS = {
  'C03': dict(level='exploration', technique='stateful property-based testing: generated histories interleaving engine events with operator commands at drawn points; invariants over the compare-and-swap log and committed rows after every step (Hypothesis)',
    text='Generated histories: a generated program (direct, nested sub-workflows, with-items, asynchronous actions) runs under a drawn schedule while a drawn plan of operator commands (pause, resume, stop with each state, rerun with reset on/off, skip, external action updates to every supported state, late and duplicate results, revival of finished actions) is issued through the engine RPC client at drawn steps and after quiescence. After every step the committed rows and the log of every compare-and-swap state change are checked against the transition table of the property text: only the listed workflow moves (ERROR/CANCELLED->RUNNING only inside a rerun/skip command on that execution tree), SUCCESS tasks never change, each action accepts one result, finished workflows keep state and output, no undeclared exception in engine events.',
    design='3 C03', note=ASSUME + '; commands mirror the REST-side guards; known finding join-retrigger (a SUCCESS join reset by Task.defer) is classified by shape and re-created by a sub-check'),
+ 'C10': dict(level='exploration', technique='stateful property-based testing: generated histories with pause/resume commands at drawn points; post-command invariants, creation monitor, and a differential oracle against the unpaused run',
+   text='Generated programs (direct, nested sub-workflows, with-items) run under drawn schedules with a drawn plan of pause/resume commands on the root or on nested executions; everything still paused is resumed at the end. Checked: an acknowledged pause leaves the execution and its unfinished sub-executions PAUSED; no task execution is created in an execution that is PAUSED before and after the creating event; no undeclared exception in any engine event; and - for programs that two unpaused runs under different schedules show to be order independent - the canonical final rows after resume equal those of the run that was never paused.',
+   design='3 C10', note=ASSUME + '; programs with fail/succeed commands and with-items over sub-workflows are outside the generated domain (the latter is known finding withitems-subwf-pause, replayed by a sub-check); join-retrigger shape classified and counted'),
 }
 NA = []
 def main():
